@@ -56,6 +56,10 @@ P(x) == Prop = x \/ Prop = "ALL"
 \* a new trace starts: file created (and synced) or materialised from `post`
 Create ==
   /\ Is("create")
+  \* C06: the header bytes are the classic ones for this configuration (either writer, either reader) and every
+  \* stored interval sits at its classic position relative to the first slot
+  /\ P("C06") /\ "hdr_ok" \in DOMAIN Ln => Ln.hdr_ok
+  /\ P("C06") /\ "placement_ok" \in DOMAIN Ln => Ln.placement_ok
   /\ cfg' = CfgOf(Ln.cfg)
   /\ ring' = Full(cfg', Ln.post)
   /\ durable' = ring'
@@ -110,11 +114,13 @@ DropArch(s) == IF s.k = "ts" THEN [k |-> "ts", from |-> s.from, until |-> s.unti
 \* a fetch on the live handle (h = 1) or on a second handle opened on the file (h = 2)
 FetchEv ==
   /\ Is("fetch")
-  /\ LET r == IF Ln.h = 1 THEN ring ELSE durable
+  /\ LET r == IF Ln.h = 2 THEN durable ELSE ring
          spec == Fetch(cfg, r, Ln.now, Ln.a, Ln.f, Ln.u)
          shapeOK == ResShape(Ln.res) = DropArch(FetchShape(cfg, Ln.now, Ln.a, Ln.f, Ln.u))
      IN /\ (P("C04") \/ P("C17")) => shapeOK
         /\ P("C17") /\ spec.k = "ts" => Ln.res[5] = spec.vals
+        \* C06: both readers (1 = whispertool, 3 = the reference) read the same bytes as the specification does
+        /\ P("C06") => shapeOK /\ (spec.k = "ts" => Ln.res[5] = spec.vals)
         \* values against the observed raw state
         /\ (P("C01") \/ (P("C05") /\ Ln.h = 2)) /\ shapeOK /\ spec.k = "ts" => Ln.res[5] = spec.vals
         \* values against the history of by-name writes (pure archives only)
@@ -141,8 +147,15 @@ Abandon ==
   /\ pure' = {}
   /\ UNCHANGED <<cfg, durable, occ>>
 
+\* Create fixes the length at once, but the header and every point reach the disk only with the first Sync:
+\* a handle from Create that is dropped before its first Sync leaves an all-zero file of the final length
+NewFileAbandoned ==
+  /\ Is("newfile-abandoned")
+  /\ P("C05") => Ln.zero /\ Ln.len = Ln.expected_len
+  /\ UNCHANGED <<cfg, ring, durable, occ, pure>>
+
 Next ==
-  /\ \/ Create \/ Update \/ Many \/ FetchEv \/ Sync \/ Abandon
+  /\ \/ Create \/ Update \/ Many \/ FetchEv \/ Sync \/ Abandon \/ NewFileAbandoned
   /\ DiskOK(durable')
 
 Spec == Init /\ [][Next]_vars
